@@ -636,8 +636,9 @@ def modifies_locations(I, st, c, env, mod_nodes):
 class Every:
     """modifies entry `every(Cls)`: all objects of class Cls (and the containers they own through their fields)"""
 
-    def __init__(self, cls):
+    def __init__(self, cls, only=None):
         self.cls = cls
+        self.only = only          # restrict to these heap keys (every(Cls, 'field'))
         self.none = FALSE
         self.term = None
         self.ty = ("Ref", cls)
@@ -664,6 +665,14 @@ def _modifies_one(I, st, env, mn, out):
     if isinstance(mn, ast.Call) and isinstance(mn.func, ast.Name) and mn.func.id == "every":
         cls = ast.unparse(mn.args[0])
         keys = I.object_keys(cls)
+        if len(mn.args) > 1:
+            want = set()
+            for a in mn.args[1:]:
+                fty = I.field_type(cls, a.value)
+                want.add(I.field_key(a.value, fty))
+            keys = [(k, s_) for k, s_ in keys if k in want]
+            out.append((Every(cls, only=want), keys))
+            return
         out.append((Every(cls), keys))
         return
     if True:
@@ -727,7 +736,7 @@ def havoc_locations(I, st, locs):
                 st.assume(z3.ForAll([o], z3.Or(cond, z3.Select(new, o) == z3.Select(arr, o))))
                 st.hset(key, new)
             # containers owned by such objects
-            for n in set(REG.subclass_names(v.cls)) | {v.cls}:
+            for n in (set(REG.subclass_names(v.cls)) | {v.cls}) if v.only is None else ():
                 for attr, fty in REG.get(n).all_fields(REG).items():
                     b = strip_opt(fty)
                     if is_ref(b) and REG.get(b[1]).kind != "object":
